@@ -1199,7 +1199,7 @@ def _two(name):
     return mon
 
 
-for _n in ("C01", "C08", "C12", "C20"):
+for _n in ("C01", "C08", "C12", "C15", "C20"):
     MONITORS[_n + "two"] = _two(_n)
 
 
